@@ -13,10 +13,17 @@ for l in open(os.path.join(SRC, "verify.log")):
         verified[(m.group(1), m.group(2))] = m.group(4).strip()
 results = {}
 for l in open(os.path.join(SRC, "results.txt")):
-    m = re.match(r"(C\d\d) m(\d) :: (C\d\d) rc=(\d+) (\d+)s \| ?(.*)", l)
-    if m:
-        key = re.search(r"key=(\S+)", m.group(6))
-        results[(m.group(1), m.group(2))] = {"check": m.group(3), "exit_code": int(m.group(4)), "seconds": int(m.group(5)), "violation_key": key.group(1) if key else None}
+    m = re.match(r"(C\d\d) m(\d) :: (.*)", l)
+    if not m:
+        continue
+    runs = []
+    for part in m.group(3).split("#"):
+        r = re.match(r"\s*(C\d\d) rc=(\d+) (\d+)s \| ?(.*)", part)
+        if r:
+            key = re.search(r"key=(\S+)", r.group(4))
+            runs.append({"check": r.group(1), "exit_code": int(r.group(2)), "seconds": int(r.group(3)), "violation_key": key.group(1) if key else None})
+    if runs:
+        results[(m.group(1), m.group(2))] = runs
 os.makedirs(DST, exist_ok=True)
 for (pid, k), suite in sorted(verified.items()):
     n = int(k) + OFFSET
@@ -41,7 +48,12 @@ for (pid, k), suite in sorted(verified.items()):
         "demonstration": {"file": "demo.rs", "copy_to": ("avro_derive/tests/" if derive else "avro/tests/") + "demo.rs", "run": f"cargo test -p {'apache-avro-derive' if derive else 'apache-avro'} --test demo --offline"},
         "confirmed_in_scratch_worktree": {"demo_passes_on_unchanged_code": True, "demo_fails_with_patch": True, "existing_suite_with_patch": suite},
         "apply": "git -C /repo apply /verif/seeded/%s-%s/patch.diff   (undo: git -C /repo checkout -- .)" % (pid, n),
-        "evaluation": ({"command": f"tools/seeded_run.sh seeded/{pid}-{n}/patch.diff quick {r['check']}", "detected": r["exit_code"] == 1, **r} if r else None),
+        "evaluation": ({
+            "command": f"tools/seeded_run.sh seeded/{pid}-{n}/patch.diff quick " + " ".join(x["check"] for x in r),
+            "detected": any(x["exit_code"] == 1 for x in r),
+            "detected_by": [x["check"] for x in r if x["exit_code"] == 1],
+            "runs": r,
+        } if r else None),
     }
     json.dump(meta, open(os.path.join(d, "meta.json"), "w"), indent=1)
     open(os.path.join(d, "meta.json"), "a").write("\n")
